@@ -599,10 +599,19 @@ def sym_expect(f, full):
         return None
     exp = []
     for g, fr in zip(groups, full.frames):
-        if len(fr.signals) != len(g["siglines"]) or fr.name != g["name"]:
+        if fr.name != g["name"]:
             return None
-        exp.append((g["need"], (fr.arbitration_id.id, bool(fr.arbitration_id.extended)), fr.name,
-                    [(ln, s.name, skel_sig(s)) for (ln, _), s in zip(g["siglines"], fr.signals)]))
+        # pair the text's Var=/Mux= lines with the reader's signals in order; a line the reader rejects even in the complete file
+        # (the sample has string signals with a string default) carries no expectation
+        sigs = []
+        k = 0
+        for ln, nm in g["siglines"]:
+            if k < len(fr.signals) and fr.signals[k].name == nm:
+                sigs.append((ln, nm, skel_sig(fr.signals[k]), k))
+                k += 1
+        if k != len(fr.signals):
+            return None
+        exp.append((g["need"], (fr.arbitration_id.id, bool(fr.arbitration_id.extended)), fr.name, sigs))
     return exp
 
 
@@ -648,7 +657,7 @@ def check_cut(f, exp, cut):
                             % (name, key), (name, key),
                             None if fr is None else (fr.name, fr.arbitration_id.id, bool(fr.arbitration_id.extended))))
                 continue
-            for k, (ln, sname, sk) in enumerate(sigs):
+            for ln, sname, sk, k in sigs:
                 if not done(ln):
                     break
                 nobj += 1
